@@ -8,6 +8,9 @@
 #include <cstring>
 #include <new>
 #include <dlfcn.h>
+#include <condition_variable>
+#include <mutex>
+#include <thread>
 
 static std::uint64_t tape[4096]; static std::size_t tape_n = 0, tape_pos = 0; static int failures = 0;
 static std::uint64_t next() { return tape_pos < tape_n ? tape[tape_pos++] : 0; }
@@ -45,6 +48,19 @@ std::uint64_t vrt_alloc_live_bytes(void) { return live_bytes; }
 std::uint64_t vrt_alloc_peak_bytes(void) { return peak_bytes; }
 }
 
+// three real threads, strictly sequential hand-off
+namespace {
+struct Worker { std::thread th; std::mutex m; std::condition_variable cv; void (*fn)(void*) = nullptr; void* arg = nullptr; bool busy = false, started = false; };
+Worker workers[3];
+void worker_loop(Worker* w) { std::unique_lock<std::mutex> l(w->m); for (;;) { w->cv.wait(l, [w] { return w->busy; }); w->fn(w->arg); w->busy = false; w->cv.notify_all(); } }
+}
+extern "C" void vrt_run_on(std::uint32_t t, void (*fn)(void*), void* arg) {
+  if (t >= 3) { std::printf("ASSUME-STOP\n"); std::fflush(stdout); std::_Exit(0); }
+  Worker* w = &workers[t];
+  if (!w->started) { w->started = true; w->th = std::thread(worker_loop, w); w->th.detach(); }
+  std::unique_lock<std::mutex> l(w->m); w->fn = fn; w->arg = arg; w->busy = true; w->cv.notify_all(); w->cv.wait(l, [w] { return !w->busy; });
+}
+
 int main(int argc, char** argv) {
   if (argc < 3) return 2;
   std::setvbuf(stdout, nullptr, _IOLBF, 0);
@@ -55,5 +71,6 @@ int main(int argc, char** argv) {
   if (f) std::fclose(f);
   h();
   std::printf("failures=%d\n", failures); std::fflush(stdout);
+  if (workers[0].started || workers[1].started || workers[2].started) std::_Exit(failures ? 1 : 0);   // parked worker threads
   return failures ? 1 : 0;
 }
